@@ -308,11 +308,14 @@ inline Result exec_c04(const Plan& plan)
             fail("misuse-not-reported", "`" + step_name(last) + "` was called with the cursor displaced by " + std::to_string(cm.script.back().displace) + " from the position it requires and returned silently (step " + std::to_string(cm.steps.size()) + ")");
             return res;
         }
-        if(std::string(o.expr).find("Wrong cursor value") == std::string::npos || rs.csteps.size() != cm.steps.size())
+        // "reported through the assertion handler": any assertion raised by exactly that call counts (the
+        // wording of the message is not part of the property); an assertion at an earlier, legal call does not
+        if(rs.csteps.size() != cm.steps.size())
         {
-            fail("misuse-other-assert", "expected the wrong-cursor assertion at step " + std::to_string(cm.steps.size()) + " `" + step_name(last) + "`, got `" + o.expr + "` after " + std::to_string(rs.csteps.size()) + " steps");
+            fail("misuse-other-assert", "expected the misuse to be reported at step " + std::to_string(cm.steps.size()) + " `" + step_name(last) + "`, but `" + o.expr + "` fired after " + std::to_string(rs.csteps.size()) + " steps");
             return res;
         }
+        if(std::string(o.expr).find("Wrong cursor value") != std::string::npos) sim::stats().count("probe.misuse_reported_as_wrong_cursor_value");
     }
     else if(o.kind == Out::HANDLER)
     {
